@@ -83,6 +83,48 @@ def window(start: int, end: int, f: int, t0: int) -> bool:
     return hx.end(True)
 
 
+def rescheduled(start: int, end: int, t0: int, s_old: int, e_old: int) -> bool:
+    """
+    post: _
+    """
+    # the window is the system's own public start/end/frequency AT the timestep in question: a system built with one window and
+    # re-scheduled by plain attribute assignment (a subclass constructor fixing its frequency after super().__init__, a user
+    # re-scheduling a registered system) follows the new one.  The assignment order and whether it happens before or after
+    # registration are the partition; old and new frequency are concrete per partition (linear queries).
+    hx.begin()
+    f_old, f, order, late = hx.P['f_old'], hx.P['f'], hx.P['order'], hx.P['late']
+    m = LogModel()
+    s = S("s", m, frequency=f_old, start=s_old, end=e_old)
+    if late:
+        m.systems.add_system(s)
+    for a in order:
+        if a == 'f':
+            s.frequency = f
+        elif a == 's':
+            s.start = start
+        else:
+            s.end = end
+    if not late:
+        m.systems.add_system(s)
+    if (s.start, s.end, s.frequency) != (start, end, f):
+        return hx.end(hx.fail("assigned window not readable back", got=(s.start, s.end, s.frequency)))
+    m.systems.timestep = t0
+    m.execute()
+    should = start <= t0 <= end and (t0 - start) % f == 0
+    if should:
+        hx.reach('runs')
+    else:
+        hx.reach('skips')
+    if len(m.log) != (1 if should else 0):
+        return hx.end(hx.fail("ran %d times after re-scheduling" % len(m.log), should=should, start=start, end=end, f=f, t=t0,
+                              old=(s_old, e_old, f_old)))
+    m.execute()                              # and the following timestep, with the same (new) window
+    should2 = start <= t0 + 1 <= end and (t0 + 1 - start) % f == 0
+    if len(m.log) != (1 if should else 0) + (1 if should2 else 0):
+        return hx.end(hx.fail("second timestep after re-scheduling", log=m.log, start=start, end=end, f=f, t=t0))
+    return hx.end(m.timestep == t0 + 2)
+
+
 def window_k(start: int, end: int, t0: int, k: int, r: int) -> bool:
     """
     pre: 0 <= r < hx.P['f']
@@ -455,6 +497,13 @@ def obligations(tier):
                   "system kinds": "System, Collector, AgentCollector, FileCollector (window passed by keyword / positionally)"}),
         X("window_k", window_k, parts=[{"f": f} for f in range(1, F + 1)], labels=("runs", "off_phase", "outside"),
           timeout=120, group=2, encoded=enc, bounds={"frequency": "1..%d (concrete per partition)" % F, "start,end,timestep,k": "all ints"}),
+        X("rescheduled", rescheduled,
+          parts=[{"f_old": fo, "f": f, "order": o, "late": l} for fo, f, o, l in
+                 (((1, 2, "sfe", False), (3, 2, "fse", True), (2, 3, "esf", True), (1, 1, "fes", False)) if tier == "quick" else
+                  ((1, 2, "sfe", False), (3, 2, "fse", True), (2, 3, "esf", True), (1, 1, "fes", False), (2, 4, "sef", True),
+                   (4, 2, "efs", False), (5, 3, "fse", False), (1, 3, "f", True), (2, 1, "sf", True)))],
+          labels=("runs", "skips"), timeout=300, encoded=enc + (System.__init__,),
+          bounds={"old and new start/end, timestep": "all ints", "old/new frequency, assignment order, before/after registration": "concrete per partition"}),
         X("default_end", default_end, labels=("runs",), timeout=120, encoded=enc + (System.__init__,)),
         X("multi_step", multi_step, parts=[{"N": min(N, 5)}], labels=("ran_twice",), timeout=900, encoded=enc, bounds={"n": "1..%d" % min(N, 5)}),
         X("multi_vs_single", multi_vs_single, parts=[{"N": N, "f": f} for f in (1, 2, 3)], labels=("ran_twice",),
